@@ -3871,6 +3871,9 @@ class PyCdlib:
         if child.inode is None:
             num_bytes_to_remove += self._remove_child_from_dr(child,
                                                               child.index_in_parent)
+            # A symbolic link has no Inode, but it may have a Rock Ridge
+            # continuation entry that has to be released.
+            num_bytes_to_remove += self._remove_rr_ce_entry(child)
         else:
             self._check_inode_against_eltorito(child.inode)
             while child.inode.linked_records:
